@@ -662,6 +662,11 @@ func recordsFrom(m, cand *refdns.Msg) bool {
 			if isMeta(r) {
 				continue
 			}
+			// filler records of "tight" answers (root owner, TXT): their sizes
+			// depend on the length of the metadata record, unknown here
+			if r.Type == refdns.TypeTXT && r.Name.Equal(refdns.Root) {
+				continue
+			}
 			if !in(r, pr[1]) {
 				return false
 			}
